@@ -506,7 +506,9 @@ def compare(ctx: core.Ctx, cases: list[dict], drv: core.Driver):
                 reqs.append(q)
                 idx.append(i)
     mres = dict(zip(idx, drv.pbatch(reqs)))
+    reqs_by_idx = dict(zip(idx, reqs))
     problems = []
+    sql_items = []  # cases on which the regenerated SQL (T-sql) is evaluated by Rel.eval and compared with the engine
     for i, (c, r) in enumerate(zip(cases, res)):
         n = len(c["ids"])
         orc = oracle(c)
@@ -544,11 +546,15 @@ def compare(ctx: core.Ctx, cases: list[dict], drv: core.Driver):
             raise core.HarnessError("no model result for a case inside the hypotheses")
         if "error" in m:
             raise RuntimeError(f"model driver error: {m['error']}")
+        sql_items.append((c, r, reqs_by_idx[i]))
         d = model_diff(r, model_tables(c, r, m))
         if d is not None:
             problems.append((c, d + " (real output still satisfies the property)", False, r))
             continue
         ctx.traces_validated += 1
+    from harness.props import c19_sql
+
+    problems += c19_sql.validate(ctx, sql_items, drv)
     return problems
 
 
@@ -641,7 +647,13 @@ def run(ctx: core.Ctx):
         "SQL atoms not modelled are trusted: COUNT(*) FILTER, window COUNT after GROUP BY, LEFT JOIN, row_number(); the row order behind row_number() is arbitrary (the model is run with a seeded random order)",
         "quotients are compared at relative 1e-9 (the model returns exact numerator/denominator pairs, the harness divides in IEEE double)",
     ]
+    from harness.props import c19_sql
+
+    sql_errs = c19_sql.prepare()  # Generated/GMSql.lean: the SQL compute_graph_metrics emits now, as Rel terms (T-sql)
     ctx.lean = core.lean_check(PROP, ctx.thorough)
+    if sql_errs:
+        ctx.lean.ok = False
+        ctx.lean.problems += ["T-sql: " + e for e in sql_errs]
     drv = core.Driver()
     if ctx.replay:
         cases = [load_case(json.loads(open(ctx.replay).read()))]
